@@ -410,11 +410,13 @@ func discardPartition(n *node, slot uint16, route func(string) (uint16, bool), p
 
 func importStreams(n *node, in restoreInput) error {
 	ctx := context.Background()
-	if _, err := in.meta.Seek(0, io.SeekStart); err != nil {
-		return &stepError{"import-meta", err}
-	}
-	if _, err := n.meta.MetaDB().ImportHashSlotSnapshotReaderForRestoreWithStats(ctx, []uint16{in.slot}, in.meta, int64(len(in.meta.data)), false); err != nil {
-		return &stepError{"import-meta", err}
+	if in.meta != nil {
+		if _, err := in.meta.Seek(0, io.SeekStart); err != nil {
+			return &stepError{"import-meta", err}
+		}
+		if _, err := n.meta.MetaDB().ImportHashSlotSnapshotReaderForRestoreWithStats(ctx, []uint16{in.slot}, in.meta, int64(len(in.meta.data)), false); err != nil {
+			return &stepError{"import-meta", err}
+		}
 	}
 	for _, s := range in.msgs {
 		if _, err := s.Seek(0, io.SeekStart); err != nil {
